@@ -729,6 +729,54 @@ class RegionTr:
                                                                   self.env[it['recv']['segs'][0]][1], self.num(e['args'][0]))
         raise Untranslatable('expression ' + json.dumps(e)[:90])
 
+    def optexpr(self, e):
+        """an Option<usize>-valued expression -> ('some', term) | ('opt', term).  checked_* never overflow here: usize is
+        modelled as N (see the trusted base)"""
+        k = e.get('e')
+        if k == 'path' and len(e['segs']) == 1 and self.env.get(e['segs'][0], ('',))[0] in ('opt', 'some'):
+            return self.env[e['segs'][0]]
+        if k == 'path' and e['segs'] == ['None']:
+            return ('opt', 'None')
+        if k == 'call' and e['f'].get('segs') == ['Some'] and len(e['args']) == 1:
+            return ('some', self.num(e['args'][0]))
+        if k == 'mcall' and e['method'] in ('checked_mul', 'checked_add') and len(e['args']) == 1:
+            a, b = self.num(e['recv']), self.num(e['args'][0])
+            return ('some', '(%s %s %s)' % (a, '*' if e['method'] == 'checked_mul' else '+', b))
+        if k == 'mcall' and e['method'] == 'checked_sub' and len(e['args']) == 1:
+            a, b = self.num(e['recv']), self.num(e['args'][0])
+            return ('opt', '(if %s <? %s then None else Some (%s - %s))' % (a, b, a, b))
+        if k == 'mcall' and e['method'] == 'and_then' and len(e['args']) == 1 and e['args'][0].get('e') == 'closure' \
+                and len(e['args'][0]['params']) == 1 and e['args'][0]['params'][0]['p'] == 'ident':
+            r = self.optexpr(e['recv'])
+            c = e['args'][0]
+            saved = dict(self.env)
+            try:
+                if r[0] == 'some':
+                    self.env[c['params'][0]['name']] = ('N', r[1])
+                    return self.optexpr(c['body'])
+                v = self.name(c['params'][0]['name'])
+                self.env[c['params'][0]['name']] = ('N', v)
+                b = self.optexpr(c['body'])
+                bt = b[1] if b[0] == 'opt' else '(Some %s)' % b[1]
+                return ('opt', '(match %s with Some %s => %s | None => None end)' % (r[1], v, bt))
+            finally:
+                self.env = saved
+        if k == 'mcall' and e['method'] == 'filter' and len(e['args']) == 1 and e['args'][0].get('e') == 'closure' \
+                and len(e['args'][0]['params']) == 1 and e['args'][0]['params'][0]['p'] == 'ident':
+            r = self.optexpr(e['recv'])
+            c = e['args'][0]
+            saved = dict(self.env)
+            try:
+                v = r[1] if r[0] == 'some' else self.name(c['params'][0]['name'])
+                self.env[c['params'][0]['name']] = ('N', v)
+                g = self.boolean(c['body'])
+                if r[0] == 'some':
+                    return ('opt', '(if %s then Some %s else None)' % (g, v))
+                return ('opt', '(match %s with Some %s => (if %s then Some %s else None) | None => None end)' % (r[1], v, g, v))
+            finally:
+                self.env = saved
+        raise Untranslatable('option expression ' + json.dumps(e)[:80])
+
     # ---- control ----------------------------------------------------------------------------
     def panics(self, e):
         """for an expression whose value nothing decides on (tokens): the condition under which evaluating it panics"""
@@ -878,6 +926,20 @@ class RegionTr:
             return '(match %s with Some %s => %s | None => %s end)' % (t[1], inner, body, self.rej)
 
     def stmt(self, s, k):
+        if s['s'] == 'let' and isinstance(s.get('init'), dict) and s['init'].get('e') == 'mcall' and \
+                s['init']['method'] in ('checked_mul', 'checked_add', 'checked_sub', 'and_then', 'filter'):
+            try:
+                try:
+                    v = self.optexpr(s['init'])
+                except NeedSplit:
+                    raise
+                saved = dict(self.env)
+                self.bind(s['name'], v)
+                r = k()
+                self.env = saved
+                return r
+            except Untranslatable:
+                pass
         if s['s'] == 'let':
             def bind(v):
                 saved = dict(self.env)
@@ -997,8 +1059,57 @@ class RegionTr:
                 return self.stmts(e['b']['stmts'], self.scoped(k))
             if kind == 'match' and e['x'].get('e') == 'path' and self.env.get(e['x']['segs'][0], ('',))[0] in ('opt', 'some'):
                 k = self.scoped(k)
-                return self.match_opt(e, lambda body: self.stmt({'s': 'expr', 'e': body, 'semi': True}, k))
+                simple = len(e['arms']) == 2 and all(a['guard'] is None for a in e['arms']) and \
+                    not any(a['pat']['p'] == 'wild' for a in e['arms'])
+                if simple:
+                    return self.match_opt(e, lambda body: self.stmt({'s': 'expr', 'e': body, 'semi': True}, k))
+                return self.match_opt_seq(e, k)
         raise Untranslatable('statement ' + json.dumps(s)[:90])
+
+    def match_opt_seq(self, e, k):
+        """match opt { Some(x) if g => A, Some(y) => B, None => C, _ => D }: first matching arm, as a statement"""
+        t = self.env[e['x']['segs'][0]]
+
+        def body_of(arm):
+            b = arm['body']
+            if b.get('e') == 'block':
+                return self.stmts(b['b']['stmts'], k)
+            return self.stmt({'s': 'expr', 'e': b, 'semi': True}, k)
+
+        def go(arms, is_some, inner):
+            # the translation of the remaining arms, knowing whether the scrutinee is Some(inner) or None
+            if not arms:
+                raise Untranslatable('match on an Option without a final arm')
+            arm = arms[0]
+            if arm['attrs']:
+                raise Untranslatable('attributes on an arm')
+            p = arm['pat']
+            saved = dict(self.env)
+            try:
+                if p['p'] == 'wild':
+                    applies = True
+                elif (p['p'] == 'ident' and p['name'] == 'None') or (p['p'] == 'path' and p['segs'] == ['None']):
+                    applies = not is_some
+                elif p['p'] == 'tuple_struct' and p['path'] == ['Some'] and len(p['elems']) == 1 and p['elems'][0]['p'] in ('ident', 'wild'):
+                    applies = is_some
+                    if is_some and p['elems'][0]['p'] == 'ident':
+                        self.bind(p['elems'][0]['name'], ('N', inner))
+                else:
+                    raise Untranslatable('pattern on an Option')
+                if not applies:
+                    return go(arms[1:], is_some, inner)
+                if arm['guard'] is None:
+                    return body_of(arm)
+                g = self.boolean(arm['guard'])
+                a = body_of(arm)
+                self.env = dict(saved)
+                return '(if %s then %s else %s)' % (g, a, go(arms[1:], is_some, inner))
+            finally:
+                self.env = saved
+        if t[0] == 'some':
+            return go(e['arms'], True, t[1])
+        inner = self.name('some')
+        return '(match %s with Some %s => %s | None => %s end)' % (t[1], inner, go(e['arms'], True, inner), go(e['arms'], False, None))
 
     def match_ap(self, e, k):
         """match <automaton state> { Ctor(x, _) | Ctor2 => { stmts } .. _ => .. } as a statement"""
